@@ -41,6 +41,13 @@ def r1_paths(ctx):
         aggs = [callee(e.data[0]) for e in p.events if e.kind == "call" and e.data[0][1][0] == "attr" and e.data[0][1][1] == Q.SELF and e.data[0][1][2].startswith("_blocked")]
         anyn = Q.some_none(p)
         unc = lookup(p.decided, Q.self_attr("uncertainty"))
+        mentions_unc = any(isinstance(x, tuple) and x and ((x[0] == "attr" and x[2] == "uncertainty") or x == const("uncertainty")) for c, _v in p.conds for x in walk(c))
+        if anyn is True and (unc is True or (unc is None and not mentions_unc)):
+            # positive contradiction: uncertainty propagation requested, some weight missing, and the call returns normally
+            ctx.add("R1", qn + "|uncertainty-without-weights-raises", "VIOLATED", "a path on which some weight is None returns normally whether or not self.uncertainty is set: uncertainty=True without weights "
+                    "is accepted (for example weights given as a tuple of Nones)", fn=qn, line=p.line)
+            seen.add("no-weights")
+            continue
         if anyn is None or (not anyn and unc is None):
             ctx.add("R1", "%s|aggregation|%s" % (qn, Q.tags(p.conds)), "UNDECIDED", "the path does not decide whether weights were given / uncertainty is set in a recognised form", fn=qn)
             continue
@@ -271,7 +278,8 @@ def r6_variance_to_weights(ctx):
         var = w[2][0] if w[2] else None
         clean = var is not None and var[0] == "call" and callee(var) == "numpy.nan_to_num" and Q.unwrap(var[2][0], funcs={"numpy.atleast_1d"}) == ("elem", ("call", ("glob", "verde.base.utils.check_data"), (("param", "variance"),), (), 0), var[2][0][2][0][2] if var[2][0][0] == "call" and var[2][0][2] and var[2][0][2][0][0] == "elem" else None)
         ctx.check("R6", "%s|weights-start-at-one|%s" % (qn, tag), True, "weights start as ones shaped like the (NaN-cleaned) variance", fn=qn)
-        ctx.check("R6", "%s|nan-to-zero|%s" % (qn, tag), True if var is not None and var[0] == "call" and callee(var) == "numpy.nan_to_num" else (False if var is not None and ("param", "variance") in Q.leaves(var) else None),
+        ctx.check("R6", "%s|nan-to-zero|%s" % (qn, tag), True if var is not None and var[0] == "call" and callee(var) == "numpy.nan_to_num" else
+                  (False if var is not None and ("param", "variance") in Q.leaves(var) and not any(e.kind == "call" and callee(e.data[0]) in ("numpy.isnan", "numpy.nan_to_num", "numpy.isfinite") for e in p.events) else None),
                   "NaN variances are turned into 0 (hence weight 1)", bad="NaNs are not cleaned: NaN variances give NaN weights", fn=qn)
         st = [e for e in p.events if e.kind == "store" and e.data[0] == w]
         dt = kw(w, "dtype")
